@@ -444,6 +444,7 @@ func Point() {
 	t := s.cur
 	t.steps++
 	s.switchAway(t, false)
+	t.last = mix(t.last, 0x9017) // control progress: the thread is past this point
 }
 
 // Block parks the running thread until cond() holds. cond is evaluated by whichever thread is
@@ -462,6 +463,7 @@ func Block(why string, cond func() bool) {
 	t.waitWhy = why
 	s.switchAway(t, false)
 	t.waitWhy = ""
+	t.last = mix(t.last, 0x9018)
 }
 
 // PointOrBlock is Point when cond() already holds, else Block.
